@@ -7,7 +7,7 @@ needing that many bytes to be available: a shorter stream is taken as plain), th
 mark.  `OBIMimeTypeGuesser` reads up to 1 MiB into a zero-filled buffer and calls `mimetype.Detect(buf)`, which
 hands the first 3072 bytes (`mimetype`'s read limit; zero padding included for a shorter file) to the detectors.
 The five OBITools detectors are attached, in this order (asked in the REVERSE order, see `guessRaw`), to
-`text/plain` and to the root `application/octet-stream`: fasta `^>[^ ]`, fastq `^@[^ ].*\n([^ ]+\n\+|[^ \n]*\n?$)` (second alternative: patches
+`text/plain` and to the root `application/octet-stream`: fasta `^>[^ ]`, fastq `^@[^ ](.*\n([^ ]+\n\+|[^ \n]*\n?$)|[^\n\x00]*$)` (third alternative: patch `C02-fastq-sniff-long-title`; second alternative: patches
 `C01-fastq-sniff-long-read` and `C01-fastq-sniff-window-edge`), ecopcr2 (prefix), genbank (prefix `LOCUS       ` or
 `^[^ ]* +Genetic Sequence Data Bank *\n`), embl (prefix `ID   `); then csv.  `guess` = the first of the five that
 fires in the order they are asked.  NOT modelled: the csv detector (asked after the five since patch
@@ -75,6 +75,7 @@ def fastqDetectWith (lte : Seq → Bool) : Seq → Bool
     c != 32 &&
     (match t.dropWhile (· != 10) with
      | 10 :: u => scanPlus u false || lte u
+     | [] => t.all (· != 0)        -- `[^\n\x00]*$`: the window ends inside the title line (patch `C02-fastq-sniff-long-title`)
      | _ => false)
   | _ => false
 
